@@ -148,6 +148,8 @@ impl FileSystem for OsFileSystem {
             .create(true)
             .truncate(true)
             .open(path)?;
+        #[cfg(raindb_verif)]
+        parking_lot::verif_rt::harness_switch("fs.lock.opened");
         file.try_lock_exclusive()?;
 
         Ok(FileLock::new(Box::new(file)))
@@ -310,6 +312,10 @@ impl FileSystem for TmpFileSystem {
             .create(true)
             .truncate(true)
             .open(self.get_rooted_path(path))?;
+        // Under verification the moment between opening the lock file and locking it is a
+        // scheduling point of the controlled runtime (another thread may unlink the path meanwhile).
+        #[cfg(raindb_verif)]
+        parking_lot::verif_rt::harness_switch("fs.lock.opened");
         file.try_lock_exclusive()?;
 
         Ok(FileLock::new(Box::new(file)))
